@@ -403,6 +403,25 @@ func (x *Exec) assignTo(e *Env, l ast.Expr, v Value, define bool) {
 			unsupported("%s: index store into %T", e.where, base)
 		}
 	case *ast.SelectorExpr:
+		if id, ok := n.X.(*ast.Ident); ok && n.Sel.Name == "Offset" {
+			if o := e.info().Uses[id]; o != nil {
+				if ev, isErr := e.st.vars[o].(ErrV); isErr {
+					// the Offset field of an error struct reached through errors.As: the pointer aliases
+					// the error it was extracted from
+					x.safety(e, "nil", n, Not(ev.Nil))
+					nv := ev
+					nv.Off = e.toIntTerm(e.assignable(v, intT))
+					e.st.vars[o] = nv
+					if src, ok := x.errAlias[o]; ok {
+						if sv, isErr := e.st.vars[src].(ErrV); isErr {
+							sv.Off = nv.Off
+							e.st.vars[src] = sv
+						}
+					}
+					return
+				}
+			}
+		}
 		p := x.placeOf(e, n)
 		cur := x.readPlace(e, p)
 		x.writePlace(e, p, x.assignLike(e, v, cur))
